@@ -118,11 +118,35 @@ def rule_r1(chk, db, conf):
                         "argument `%s` of %s (%s) is not a confined path (request data: %s)" % (fb.local_name(idx) if fb else idx, short(fn), why, sorted(c["request"])[:3]))
 
 
+def _encodes(db, sl):
+    """the sliced value passes through base64 encoding (a call into, or a closure containing, encode_to_string)"""
+    return any("encode_to_string" in (db.body(c["callee"].get("resolved") or "").text if db.body(c["callee"].get("resolved") or "") else callee_def(c)) for _, c, _ in sl.calls) or \
+        any(rv2.get("agg") == "closure" and db.body(rv2.get("def", "")) is not None and "encode_to_string" in db.body(rv2.get("def", "")).text for _, rv2 in sl.aggs)
+
+
 def rule_r1b(chk, db, conf):
     """request data given directly to the *root-level* confinement function: confined to the root, not to its bucket"""
     base = [n for n, b in conf.items() if any(callee_def(t).endswith("Absolutize::absolutize_virtually") and ("FileSystem", "root") in flow.backward(b, t["args"][1], at=bi).fields
                                               for bi, t in b.calls())]
-    n = 0
+    # a private pass-through wrapper (`fn resolve_internal_file(&self, f) { self.resolve_abs_path(f.file_name()) }`) is a root-level confinement
+    # function as well: what its callers hand to it ends up under the root.  encodes[fn]: the wrapper itself base64-encodes on the way.
+    encodes = {fn: False for fn in base}
+    grown = True
+    while grown:
+        grown = False
+        for name, w in conf.items():
+            if name in encodes or {"bucket", "key"} <= {w.local_name(l) for l in range(1, w.argc + 1)}:
+                continue
+            for wb in db.nested(w):
+                for bi, t in wb.calls():
+                    if callee_def(t) in encodes and len(t["args"]) >= 2:
+                        sl = flow.backward(wb, t["args"][1], at=bi, stop=lambda x: callee_def(x) in conf)
+                        if sl.params and name not in encodes:
+                            encodes[name] = encodes[callee_def(t)] or _encodes(db, sl)
+                            grown = True
+    # the wrappers only count towards the floor (their call sites are where the root-level function is used now); what is handed to them is
+    # judged where they hand it on
+    n = sum(1 for fn in encodes if fn not in base for b, _, _ in db.callers_of(fn) if b.crate == "s3s_fs")
     for fn in base:
         for b, bi, t in db.callers_of(fn):
             if b.crate != "s3s_fs":
@@ -138,9 +162,7 @@ def rule_r1b(chk, db, conf):
             root = db.root_of(b)
             for l, pr in sl.params:
                 if b.kind != "Closure" and b.locals[l] in ("&str", "&alloc::string::String", "alloc::string::String") and b.local_name(l) not in ("bucket",):
-                    enc = any("encode_to_string" in (db.body(c["callee"].get("resolved") or "").text if db.body(c["callee"].get("resolved") or "") else callee_def(c)) for _, c, _ in sl.calls) or \
-                        any(rv2.get("agg") == "closure" and db.body(rv2.get("def", "")) is not None and "encode_to_string" in db.body(rv2.get("def", "")).text for _, rv2 in sl.aggs)
-                    if not enc:
+                    if not (encodes[fn] or _encodes(db, sl)):
                         raw.append(b.local_name(l))
             bad_req = [r for r in req if r[1] != "bucket"]
             chk.verdict(not bad_req and not raw, "R1", "root-level:%s#%d" % (root.name.replace("s3s_fs::", "")[:60], bi), b.loc(bi),
